@@ -580,6 +580,19 @@ func findChecks(c *Case, ms *yang.Modules, obs map[string]map[string]*Observed) 
 					if g := st.e.Find(sub); g != nil {
 						return fmt.Sprintf("absent-step-found\x00Find(%q) from %s returns %s, the path names no node", sub, st.what, desc(g))
 					}
+					// an absent step followed by a step back up: the path still names no node (a step is looked up in the
+					// tree, the path is not simplified as a string first)
+					upAgain := "/" + pfx + ":" + strings.Join(append(append([]string{}, f.P[:len(f.P)-1]...), "nosuchnode/.."), "/"+pfx+":") + "/" + pfx + ":" + f.P[len(f.P)-1]
+					if g := st.e.Find(upAgain); g != nil {
+						return fmt.Sprintf("absent-step-found\x00Find(%q) from %s returns %s, the path has a step that names no node", upAgain, st.what, desc(g))
+					}
+					if f.Kind == "leaf" || f.Kind == "leaf-list" {
+						// below a leaf there is nothing to step into, and so nothing to come back from
+						through := abs + "/" + pfx + ":x/.."
+						if g := st.e.Find(through); g != nil {
+							return fmt.Sprintf("absent-step-found\x00Find(%q) from %s returns %s, the path steps below a leaf", through, st.what, desc(g))
+						}
+					}
 				}
 			}
 		}
@@ -593,6 +606,12 @@ func findChecks(c *Case, ms *yang.Modules, obs map[string]map[string]*Observed) 
 				rel := strings.Repeat("../", len(from.P)) + p
 				if g := from.Entry.Find(rel); g != want.Entry {
 					return fmt.Sprintf("relative-lookup\x00Find(%q) from %s returns %s, the destination is %s", rel, q, desc(g), desc(want.Entry))
+				}
+				if len(from.P) >= 1 {
+					bad := strings.Repeat("../", len(from.P)) + "nosuchnode/../" + p
+					if g := from.Entry.Find(bad); g != nil {
+						return fmt.Sprintf("absent-step-found\x00Find(%q) from %s returns %s, the path has a step that names no node", bad, q, desc(g))
+					}
 				}
 			}
 		}
@@ -637,6 +656,9 @@ func init() {
 		cfgs := tierCfgs(r, []string{"aug_quick", "aug_late", "aug_pair", "aug_sub_quick", "split"}, []string{"aug_sub", "aug_two"})
 		designRun(r, "C07", cfgs, nil)
 		directionB(r, "C07", false)
+		RegistryReg(r) // several revisions of the augmented module: the augment lands in the tree of the one the import denotes
+		// however the set was arrived at (a second run, GetModule, after ClearEntryCache): the augments are there
+		SessionHistories(r, "C07", "dvok", "a3")
 	}
 }
 
@@ -677,6 +699,7 @@ func init() {
 		r.Assumptions = []string{"error texts are not compared, only presence", "bounded program spaces"}
 		col := core.NewCollector()
 		designRun(r, "C04", tierCfgs(r, []string{"aug_quick", "aug_late", "uses_quick", "aug_pair", "aug_sub_quick", "cfg", "dev3"}, []string{"aug_sub", "aug_two", "uses", "split", "dev2"}), col)
+		RegistryHeaps(r, col) // several revisions of one module in the set: every tree is swept, fixed and augmented
 		r.ValidateTrace("schema", col, core.TLCOpts{Module: "SchemaTrace", Cfg: "SchemaTrace.cfg", Timeout: 0, HeapGB: 8})
 		directionB(r, "C04", true)
 		// however the run is asked for (Process, GetModule, after ClearEntryCache): clean means clean, and the trees are those of a fresh set
@@ -689,6 +712,7 @@ func init() {
 		designRun(r, "C12", tierCfgs(r, []string{"cfg", "aug_quick", "aug_late", "uses_quick"}, []string{"aug_sub", "uses"}), nil)
 		directionB(r, "C12", false)
 		SessionHistories(r, "C12", "dv", "tgt2")
+		RegistryReg(r) // several revisions of one module in the set: attribution still names the module whose text placed the node
 	}
 	core.Checks["C06"] = func(r *core.Run) {
 		r.Rule = "A: the uses space: a grouping g1 of four shapes (container with default leaf and nested uses; list with min-elements and a leaf-list with defaults; config-false container with choice/case and shorthand member; container with an inner grouping shadowing the outer g2) defined in the imported module, in its submodule or in the using module, used at two sites (container, list, rpc input, notification, through another grouping, inside a case), names inside it (g2) shadowed by a same-named grouping of the user; with one later mutation of the first instance (augment, deviate not-supported, deviate add config) from a third module; every path, kind, attribute and Namespace() of every instance compared with the inlined-copy semantics of Schema.tla. Non-trivial = every case."
@@ -698,6 +722,8 @@ func init() {
 		designRun(r, "C06", tierCfgs(r, []string{"uses_quick"}, []string{"uses"}), col)
 		r.ValidateTrace("schema", col, core.TLCOpts{Module: "SchemaTrace", Cfg: "SchemaTrace.cfg", Timeout: 0, HeapGB: 8})
 		directionB(r, "C06", true)
+		// which grouping a uses names may change between two runs over one set (a newer revision of its module arrives)
+		SessionHistories(r, "C06", "ib")
 	}
 	core.Checks["C17"] = func(r *core.Run) {
 		r.Rule = "A: on every clean outcome of the augment space (and the uses / config spaces in the thorough tier): for every node of every module tree, Find of its absolute prefixed path from the module's own root, from the root of every importing module (with that module's prefix) and from a deep node of each, compared by pointer identity; the relative ../ path between every pair of nodes up to depth 3; and every absolute path with an absent step appended or substituted must return nothing. Non-trivial = every case."
@@ -706,6 +732,8 @@ func init() {
 		designRun(r, "C17", tierCfgs(r, []string{"aug_quick", "aug_late", "uses_quick", "aug_pair", "split"}, []string{"uses", "cfg", "aug_sub"}), nil)
 		directionB(r, "C17", false)
 		RegistryReg(r) // several revisions of one module: a prefix reaches the tree of the module the import denotes
+		// ... also when the newer revision arrives after a run (lookups under every import prefix are part of what is compared)
+		SessionHistories(r, "C17", "ib")
 	}
 }
 
@@ -806,9 +834,11 @@ var SessionHistories = func(r *core.Run, prop string, texts ...string) {}
 
 // C13Registry, RegistryReg and RegistryFs are set by the registry family.
 var (
-	C13Registry = func(r *core.Run) {}
-	RegistryReg = func(r *core.Run) {}
-	RegistryFs  = func(r *core.Run) {}
+	C13Registry   = func(r *core.Run) {}
+	RegistryReg   = func(r *core.Run) {}
+	RegistryFs    = func(r *core.Run) {}
+	RegistryHeaps = func(r *core.Run, col *core.Collector) {}
+	C13Identities = func(r *core.Run) {}
 )
 
 func init() {
@@ -818,6 +848,7 @@ func init() {
 		r.Assumptions = []string{"a submodule's references to definitions in other parts go through its own includes or are placed in the module (RFC 6020 and 7950 agree there)"}
 		C13Registry(r)
 		designRun(r, "C13", tierCfgs(r, []string{"split"}, nil), nil)
+		C13Identities(r)
 		// an import without revision-date follows the latest revision loaded, also when it arrives after a run
 		SessionHistories(r, "C13", "bb-r2")
 	}
